@@ -25,6 +25,8 @@ REPLAYS = os.environ.get("CTV_REPLAYS", os.path.join(VERIF, "replays"))
 EVIDENCE = os.environ.get("CTV_EVIDENCE", os.path.join(VERIF, "evidence"))
 KNOWN = os.path.join(VERIF, "known_findings.json")
 
+UNLISTED_TAGS = {"defaults"}
+
 TLA_CP = "/opt/veriftools/tla/tla2tools.jar:/opt/veriftools/tla/CommunityModules-deps.jar"
 
 GIF, LB, TPP = "get-info-full", "large-blobs", "third-party-payment"
@@ -288,7 +290,9 @@ def replay(cfg, vecpath, run, full=False, props=None):
         with open(vecpath) as f, open(inpath, "w") as g:
             for line in f:
                 v = json.loads(line)
-                v["props"] = props
+                # behaviour beyond the listed properties (defaults, builders) serves no property id:
+                # a deviation there is reported as a note, never as a violation of a listed property
+                v["props"] = ["SPEC"] if v.get("tag") in UNLISTED_TAGS else props
                 g.write(json.dumps(v, separators=(",", ":")) + "\n")
     t0 = time.time()
     r = sh([binp, "replay", inpath, outpath] + (["--full"] if full else []))
